@@ -84,3 +84,56 @@ def prove_invariant(ctx, si, tag):
         ctx.prove(f'{tag}:shares_in_01[{i}]', And(ge(s, 0), ge(a, 0), ge(n, 0), le(s, 1), le(a, 1), le(n, 1)))
         ctx.prove(f'{tag}:p_pos[{i}]', gt(p, 0))
         ctx.prove(f'{tag}:powers_add[{i}]', eq(si.signal[i] + si.ase[i] + si.nli[i], si.pch[i]))
+
+
+# ------------------------------------------------------------------------------------------------ real gnpy objects
+_EQPT = {}
+EXAMPLE = '/repo/gnpy/example-data'
+TESTDATA = '/repo/tests/data'
+
+
+def equipment(name='eqpt_config.json', base=EXAMPLE, extra=None):
+    """equipment library loaded by the real loader (cached per process; deep-copied by callers that mutate it)"""
+    import logging
+    from pathlib import Path
+    from gnpy.tools.json_io import load_equipment, load_json
+    logging.disable(logging.CRITICAL)
+    key = (name, base)
+    if key not in _EQPT:
+        extra_cfg = None
+        if extra:
+            extra_cfg = {Path(e).name: load_json(Path(e)) for e in extra}
+        _EQPT[key] = load_equipment(Path(base) / name, extra_cfg) if extra_cfg else load_equipment(Path(base) / name)
+    return _EQPT[key]
+
+
+def build_elements(elements_json, eqpt=None, connections=None):
+    """elements created by the real network_from_json from element dicts; returns (graph, {uid: element})"""
+    from copy import deepcopy
+    from gnpy.tools.json_io import network_from_json
+    eqpt = eqpt or equipment()
+    g = network_from_json({'elements': deepcopy(elements_json), 'connections': connections or []}, eqpt)
+    return g, {n.uid: n for n in g.nodes()}
+
+
+def c01_obligations(ctx, si, tag):
+    prove_invariant(ctx, si, tag)
+
+
+def c02_obligations(ctx, pre, si, tag, kind, idx=None):
+    """quality never improves; kind: 'passive' (all unchanged) | 'amp' (only ASE moves) | 'fiber' (only NLI moves)"""
+    k = si.number_of_channels
+    idx = idx if idx is not None else list(range(k))
+    for j, i in enumerate(idx):
+        s0, a0, n0 = pre['s'][i], pre['a'][i], pre['n'][i]
+        s1, a1, n1 = si._signal_ratio[j], si._ase_ratio[j], si._nli_ratio[j]
+        # cross-multiplied so that an infinite ratio (zero noise) needs no special case
+        ctx.prove(f'{tag}:gsnr_not_improved[{i}]', le(s1 * (a0 + n0), s0 * (a1 + n1)))
+        ctx.prove(f'{tag}:osnr_ase_not_improved[{i}]', le(s1 * a0, s0 * a1))
+        ctx.prove(f'{tag}:snr_nli_not_improved[{i}]', le(s1 * n0, s0 * n1))
+        if kind == 'passive':
+            ctx.prove(f'{tag}:quality_unchanged[{i}]', And(eq(s1, s0), eq(a1, a0), eq(n1, n0)))
+        elif kind == 'amp':
+            ctx.prove(f'{tag}:snr_nli_unchanged[{i}]', eq(s1 * n0, s0 * n1))
+        elif kind == 'fiber':
+            ctx.prove(f'{tag}:osnr_ase_unchanged[{i}]', eq(s1 * a0, s0 * a1))
